@@ -167,6 +167,28 @@ package mqttproxy
 //     that never arrived: C16.reconnect.subscription-never-persisted,
 //     C16.reconnect.unsubscribe-never-persisted (only without injected storage
 //     errors, watch breaks and broker-side deletions of the key).
+//   * overlap recipe: a cleanSession=false reconnect whose client does not read
+//     (2-byte socket window: the broker's CONNACK write is parked) until the NEXT
+//     connection of the id - mostly clean=1 - has completed its takeover; the
+//     driver waits for the parked connection's registration (white box) instead
+//     of its CONNACK. The parked connection never becomes the model's current
+//     one (a clean=0 connection in between changes nothing for the successor's
+//     session). What the superseded handler does after its write returns must
+//     not touch the successor: the usual survivor checks decide
+//     (C16.discarded-session-still-delivers, C16.takeover.*).
+//   * batch_watch: the deletions of ONE admin request (several sessions) are
+//     reported by the delete watch in one event = one map with several keys (the
+//     storage interface's event type; Broker.watchDelete loops over it). Every
+//     client that was registered for a deleted (existing) session while the
+//     watch was up has to be disconnected: C16.admin-delete.other-client-still-registered
+//     (bystanders), C16.admin-delete.client-still-registered (the final request
+//     deletes the contested id together with the offline "<id>zz"). Note: today's
+//     clusterStorage never produces such events (cluster.watcher.WatchWithOp sends
+//     one single-key map per etcd event); this explores the interface contract
+//     only and is therefore OFF (const c16GenBatchWatch): code that is right for
+//     every event the real store can deliver must not be reported. The seeded
+//     change C16-r5m3 breaks nothing with the real store; it is caught with the
+//     switch on.
 //   * F5: a session holding QoS0 and QoS>=1 filters gets a second probe round
 //     with QoS1 messages: every firm filter subscribed with QoS>=1 must deliver
 //     (C16.subscription-qos-lost, C16.reconnect.subscription-qos-not-restored);
@@ -262,6 +284,8 @@ type c16Conn struct {
 	Pipeline   bool      `json:"pipeline"` // the first step is sent right behind CONNECT, before CONNACK is read
 	V31        bool      `json:"v31"`      // CONNECT as MQTT 3.1 ("MQIsdp", level 3)
 	Will       bool      `json:"will"`     // CONNECT carries a will message
+	Overlap    bool      `json:"overlap"`  // (clean=0, not the last one) the client does not read its CONNACK - the socket window is 2 bytes, the broker's CONNACK write is parked - until the NEXT connection has completed its handshake
+	HoldUs     int64     `json:"hold_us"`  // overlap: extra time before the CONNACK is read
 	SegC2S     []int     `json:"seg_c2s"`
 	DelayC2SUs []int64   `json:"delay_c2s_us"`
 	DelayS2CUs []int64   `json:"delay_s2c_us"`
@@ -304,6 +328,10 @@ type c16Pipes struct {
 
 // c16Intr: a connection attempt that uses the contested client id and is
 // refused (never a takeover).
+// c16GenBatchWatch: deliver the deletions of one admin request as one multi-key
+// watch event. OFF: the real clusterStorage delivers one key per event.
+const c16GenBatchWatch = false
+
 type c16Intr struct {
 	GapUs int64  `json:"gap_us"` // since the start of the run
 	Kind  string `json:"kind"`   // badauth | badproto | pwnouser | notconnect | half
@@ -328,6 +356,7 @@ type c16Scenario struct {
 	Adm         []c16Adm  `json:"adm"`
 	WatchBreakUs []int64  `json:"watch_break_us"` // instants (since start) at which the delete watch breaks
 	GapDelete   string    `json:"gap_delete"`  // x | by0 | by1: admin DELETE of that id's session in the middle of a watch re-establishment (between the two storage calls of Broker.reconnectWatcher)
+	BatchWatch  bool      `json:"batch_watch"` // the deletions of one admin request reach the delete watch as ONE event (map with several keys)
 	StoreQuiet  bool      `json:"store_quiet"` // every reconnect waits until the storage has caught up (no operation in flight or started for 21 polls)
 	Conns       []c16Conn `json:"conns"`
 	By          []c16By   `json:"by"`
@@ -423,7 +452,19 @@ func c16Gen(rng *sim.Rand, tier string) interface{} {
 		}
 		return out
 	}
-	if rng.Bool(0.07) {
+	if rng.Bool(0.06) {
+		// recipe: a reconnect whose CONNACK write is parked (the client does not
+		// read, tiny window) while the next connection of the id takes over
+		sc.Store = c16StoreF{}
+		c0 := c16Conn{Clean: false, End: rng.PickStr("stay", "silent", "disconnect", "close", "reset"), EndUs: int64(rng.Pick(103, 2011, 103000))}
+		c0.Steps = steps(rng.Pick(1, 1, 2))
+		for i := range c0.Steps {
+			c0.Steps[i].Op, c0.Steps[i].NoWait = "sub", false
+		}
+		c1 := c16Conn{Clean: false, Overlap: true, GapUs: int64(rng.Pick(1003, 307000, 2003000)), HoldUs: int64(rng.Pick(0, 101, 50700)), End: "silent"}
+		c2 := c16Conn{Clean: rng.Bool(0.8), GapUs: int64(rng.Pick(0, 53, 1003)), End: "stay", Steps: steps(rng.Pick(0, 0, 1))}
+		sc.Conns = append(sc.Conns, c0, c1, c2)
+	} else if rng.Bool(0.07) {
 		// recipe: slow storage, the connection ends right behind its last
 		// acknowledged (un)subscribe - its snapshot is still on its way to the
 		// storage - and the client reconnects only when the storage has caught up
@@ -546,6 +587,22 @@ func c16GenExtras(rng *sim.Rand, sc *c16Scenario) {
 				in.Kind = "badproto"
 			}
 			sc.Intr = append(sc.Intr, in)
+		}
+	}
+	if rng.Bool(0.3) {
+		// several sessions deleted by one admin request; with c16GenBatchWatch the
+		// watch reports them in ONE event
+		sc.BatchWatch = c16GenBatchWatch
+		if len(sc.By) > 0 && rng.Bool(0.7) {
+			ids := []string{"by0", "ext"}
+			if len(sc.By) > 1 {
+				ids = []string{"by0", "by1", "ext"}
+			}
+			var sh []string
+			for _, i := range rng.Perm(len(ids)) {
+				sh = append(sh, ids[i])
+			}
+			sc.Adm = append(sc.Adm, c16Adm{GapUs: int64(gaps[rng.Intn(len(gaps))] + 2*rng.Intn(500)), IDs: sh})
 		}
 	}
 	if rng.Bool(0.25) {
@@ -685,6 +742,8 @@ type c16Store struct {
 	onPrefix    func(has func(id string) bool)
 	inflight    int    // get/put/delete calls in progress
 	ops         int    // get/put/delete calls started
+	batchOn     int                // >0: an admin request is being handled, its delete events are collected
+	batch       map[string]*string // ... here
 	phase       int    // 1: the watch broke, none of the two calls of the re-establishment yet; 2: one of them done
 	midHook     func() // runs between the two storage calls of a watch re-establishment
 	// deleter tells (at the moment delete is called) whether the connection that
@@ -841,6 +900,13 @@ func (s *c16Store) delete(key string) error {
 		}
 	}
 	// etcd semantics: only the deletion of an existing key produces an event
+	if existed && s.watched && s.batchOn > 0 {
+		if s.batch == nil {
+			s.batch = map[string]*string{}
+		}
+		s.batch[key] = nil
+		return nil
+	}
 	if existed && s.watched {
 		s.nWatch++
 		m := map[string]*string{key: nil}
@@ -862,6 +928,42 @@ func (s *c16Store) delete(key string) error {
 		}
 	}
 	return nil
+}
+
+// batchBegin / batchEnd bracket an admin request whose deletions the watch
+// reports in one event (the storage interface's events are maps of keys).
+func (s *c16Store) batchBegin() { s.batchOn++ }
+
+func (s *c16Store) batchEnd() {
+	s.batchOn--
+	if s.batchOn > 0 || len(s.batch) == 0 {
+		return
+	}
+	m := s.batch
+	s.batch = nil
+	if !s.watched {
+		return
+	}
+	if len(m) > 1 && !s.quiet {
+		s.r.Probe("c16.watch_event_with_several_keys")
+	}
+	s.nWatch++
+	if s.f.Async {
+		nw := s.nWatch
+		ch := s.ch
+		go func() {
+			s.lat(s.f.WatchDelayUs, nw, "store.watch")
+			select {
+			case ch <- m:
+			default:
+			}
+		}()
+		return
+	}
+	select {
+	case s.ch <- m:
+	default:
+	}
 }
 
 func (s *c16Store) watchDelete(prefix string) (<-chan map[string]*string, func(), error) {
@@ -950,6 +1052,8 @@ type c16Cli struct {
 	subs           map[string]byte // bystander's own acknowledged subscriptions
 	tick           time.Duration   // odd nanoseconds slept before every write (tie breaking, see send)
 	ackq           []uint16        // PUBACKs to be written by the acker task
+	holdRead       chan struct{}   // overlap: the reader starts when this channel is closed
+	overlap        bool            // overlap connection (see c16Conn.Overlap): never the current one for the model
 	pause          chan struct{}   // set: the reader stops after the next packet until the channel is closed
 	nBurst         int             // distinct long payloads received
 	mayClose       bool            // bystander: its session was deleted by an admin request / its key was missing when the watch was re-established
@@ -994,6 +1098,7 @@ type c16H struct {
 	takeovers, restores int
 	clOf      map[int]*Client // connection id -> broker-side Client, as seen in b.clients at quiescent points
 	intr      map[int]string // connection id -> name of a refused connection attempt
+	victims     []c16Victim // clients whose session was deleted by an admin request while the script ran
 	gapVictim   *Client // the client registered for the id whose session was deleted in the middle of a watch re-establishment
 	gapID       string
 	gapName     string
@@ -1035,7 +1140,7 @@ func (h *c16H) history() string {
 func (h *c16H) describe() string {
 	var sb strings.Builder
 	for k, c := range h.sc.Conns {
-		fmt.Fprintf(&sb, "x%d{clean=%v ka=%d gap=%dus end=%s@%dus pipeline=%v v31=%v will=%v", k, c.Clean, c.KeepAlive, c.GapUs, c.End, c.EndUs, c.Pipeline, c.V31, c.Will)
+		fmt.Fprintf(&sb, "x%d{clean=%v ka=%d gap=%dus end=%s@%dus pipeline=%v v31=%v will=%v overlap=%v", k, c.Clean, c.KeepAlive, c.GapUs, c.End, c.EndUs, c.Pipeline, c.V31, c.Will, c.Overlap)
 		for _, s := range c.Steps {
 			fmt.Fprintf(&sb, " %s%v", s.Op, s.Filters)
 		}
@@ -1054,6 +1159,9 @@ func (h *c16H) describe() string {
 	}
 	if h.sc.StoreQuiet {
 		sb.WriteString(" reconnects-wait-for-storage")
+	}
+	if h.sc.BatchWatch {
+		sb.WriteString(" admin-requests-in-one-watch-event")
 	}
 	return sb.String()
 }
@@ -1393,6 +1501,13 @@ func (c *c16Cli) send(p packets.ControlPacket) error {
 
 func (c *c16Cli) reader() {
 	h := c.h
+	if c.holdRead != nil {
+		<-c.holdRead
+		h.r.Yield("c16.hold-released")
+		if !h.closing {
+			h.logf("%s: starts reading", c.name)
+		}
+	}
 	for {
 		p, err := packets.ReadPacket(c.conn)
 		if err != nil {
@@ -1508,7 +1623,13 @@ func (h *c16H) ambInflight(c *c16Cli) {
 }
 
 func (h *c16H) dial(c *c16Cli) bool {
+	old := h.n.BufferSize
+	if c.overlap {
+		// the window of a connection is fixed when it is dialled
+		h.n.BufferSize = 2
+	}
 	conn, err := h.n.Dial(context.Background(), "tcp", c.name+".c16:1883")
+	h.n.BufferSize = old
 	if err != nil {
 		h.logf("%s: dial failed: %v", c.name, err)
 		return false
@@ -1576,6 +1697,40 @@ func (h *c16H) connect(c *c16Cli) bool {
 	return c.connected
 }
 
+// connectOverlap: CONNECT of a connection that will not read its CONNACK for a
+// while. Returns once the broker has registered it (white box; the broker is
+// then parked in its CONNACK write or about to be).
+func (h *c16H) connectOverlap(c *c16Cli) bool {
+	c.overlap = true
+	c.holdRead = make(chan struct{})
+	if !h.dial(c) {
+		return false
+	}
+	p := packets.NewControlPacket(packets.Connect).(*packets.ConnectPacket)
+	p.ProtocolName, p.ProtocolVersion = "MQTT", 4
+	p.CleanSession, p.ClientIdentifier, p.Keepalive = false, c.id, 0
+	if h.sc.Creds || h.sc.Pipes.Connect {
+		p.UsernameFlag, p.Username = true, "u"
+		p.PasswordFlag, p.Password = true, []byte("ok")
+	}
+	c.connectSeq = h.r.Seq()
+	h.logf("%s: CONNECT clean=false keepalive=0 (conn %d), will not read its CONNACK before the next connection is through", c.name, c.cid)
+	if err := c.send(p); err != nil {
+		return false
+	}
+	ok := h.waitPoll("registration-of-parked-connect", func() bool {
+		// (clOf: every client ever seen in b.clients at a quiescent point - the
+		// registration may be gone again by the time of this poll)
+		cl := h.b.clients[c16ID]
+		return (cl != nil && c16ConnID(cl) == c.cid) || h.clOf[c.cid] != nil || c.dead() || h.stop()
+	})
+	if !ok || c.dead() || h.stop() {
+		return false
+	}
+	h.r.Probe("c16.connack_write_parked_during_next_handshake")
+	return true
+}
+
 // onConnack runs in the reader at the moment an accepting CONNACK is read, so
 // that acknowledgements read right behind it already find the connection
 // current.
@@ -1583,6 +1738,13 @@ func (h *c16H) onConnack(c *c16Cli) {
 	c.connected = true
 	c.connackSeq = h.r.Seq()
 	if c.idx < 0 {
+		return
+	}
+	if c.overlap {
+		// read only after the next connection took the id over: the model has
+		// moved on (a clean=0 connection in between changes nothing for it)
+		c.superseded = true
+		h.logf("%s: CONNACK (read late, the id belongs to a newer connection)", c.name)
 		return
 	}
 	prev := c.prev
@@ -1642,6 +1804,12 @@ func (h *c16H) scriptDone() {
 
 func (h *c16H) driver() {
 	defer h.scriptDone()
+	var hold *c16Cli
+	defer func() {
+		if hold != nil {
+			close(hold.holdRead)
+		}
+	}()
 	for k := range h.sc.Conns {
 		spec := h.sc.Conns[k]
 		h.r.Sleep(c16Us(spec.GapUs))
@@ -1667,7 +1835,27 @@ func (h *c16H) driver() {
 			prev.bcast()
 		}
 		c.prev = prev
-		if !h.connect(c) {
+		if spec.Overlap && !spec.Clean && k < len(h.sc.Conns)-1 {
+			if hold != nil {
+				close(hold.holdRead)
+			}
+			hold = nil
+			if h.connectOverlap(c) {
+				hold = c
+			} else {
+				close(c.holdRead)
+			}
+			continue
+		}
+		ok := h.connect(c)
+		if hold != nil {
+			// the next connection has completed (or failed) its handshake: now the
+			// parked one reads its CONNACK
+			h.r.Sleep(c16Us(hold.spec.HoldUs) + hold.tick)
+			close(hold.holdRead)
+			hold = nil
+		}
+		if !ok {
 			continue
 		}
 		h.pending++
@@ -2055,6 +2243,7 @@ func (h *c16H) adminOthers(j int, a c16Adm) {
 	}
 	var req HTTPSessions
 	var names []string
+	var cand []c16Victim
 	for _, x := range a.IDs {
 		id := ""
 		switch x {
@@ -2068,6 +2257,10 @@ func (h *c16H) adminOthers(j int, a c16Adm) {
 				id = h.bys[k].id
 				h.bys[k].mayClose = true
 				h.bys[k].bcast()
+				_, existed := h.st.data[sessionStoreKey(id)]
+				if cl := h.b.clients[id]; cl != nil && existed && cl.statusFlag != Disconnected && h.st.watched && h.st.phase == 0 {
+					cand = append(cand, c16Victim{cl, id, h.bys[k].name})
+				}
 			}
 		}
 		if id == "" || id == c16ID {
@@ -2084,7 +2277,55 @@ func (h *c16H) adminOthers(j int, a c16Adm) {
 	rec := httptest.NewRecorder()
 	h.logf("admin: DELETE sessions of other ids %q", names)
 	h.r.Probe("c16.admin_delete_of_other_ids")
+	errs := h.st.delErrs
+	if h.sc.BatchWatch {
+		h.st.batchBegin()
+	}
 	h.b.httpDeleteSessionHandler(rec, hr)
+	if h.sc.BatchWatch {
+		h.st.batchEnd()
+	}
+	// asserted only if the delete watch was up (no re-establishment under way)
+	// from start to end of the request and no deletion failed
+	if h.st.delErrs == errs && h.st.watched && h.st.phase == 0 && h.st.breaks == 0 {
+		h.victims = append(h.victims, cand...)
+	}
+}
+
+// c16Victim: the client that was registered for an id when an admin request
+// deleted the id's (existing) session.
+type c16Victim struct {
+	cl       *Client
+	id, name string
+}
+
+// checkVictims: "deleting a session through the admin endpoint disconnects
+// that client" for every session of a request, also when the watch reports
+// the deletions of the request in one event.
+func (h *c16H) checkVictims() {
+	for _, v := range h.victims {
+		v := v
+		if h.st.breaks > 0 || h.stuck {
+			return
+		}
+		gone := func() bool { return v.cl.statusFlag == Disconnected || h.b.clients[v.id] != v.cl }
+		deadline := time.Now().Add(c16Timeout)
+		for step := 53 * time.Millisecond; !gone() && time.Now().Before(deadline) && !h.stop(); {
+			h.r.Sleep(step)
+			if step < time.Minute {
+				step *= 2
+			}
+		}
+		if h.stop() {
+			return
+		}
+		if !gone() {
+			h.r.Violate("C16.admin-delete.other-client-still-registered", "the session of %s (id %q) was deleted through the admin handler (several sessions of one request in one watch event=%v); %v later the client is still registered and not disconnected\n%s",
+				v.name, v.id, h.sc.BatchWatch, c16Timeout, h.history())
+			return
+		}
+		h.r.Probe("c16.admin_deleted_other_client_disconnected")
+	}
 }
 
 // gapDelete runs on the goroutine of Broker.reconnectWatcher between its two
@@ -2559,6 +2800,7 @@ func (h *c16H) final() {
 		}
 	}
 	h.checkGapVictim()
+	h.checkVictims()
 	if S != nil && h.watchKill {
 		// its session key was missing when the broker re-established the delete
 		// watch: the broker may have disconnected it for that (see onPrefix)
@@ -3017,11 +3259,26 @@ func (h *c16H) final() {
 	errs := h.st.delErrs
 	h.admin = true
 	h.st.admin = true
-	body, _ := json.Marshal(HTTPSessions{Sessions: []*HTTPSession{{SessionID: c16ID}}})
+	dreq := HTTPSessions{Sessions: []*HTTPSession{{SessionID: c16ID}}}
+	if h.sc.BatchWatch {
+		// one request, several sessions (the other one belongs to an offline
+		// client), one watch event
+		other := &HTTPSession{SessionID: c16ID + "zz"}
+		if h.sc.Burst%2 == 0 {
+			dreq.Sessions = append(dreq.Sessions, other)
+		} else {
+			dreq.Sessions = append([]*HTTPSession{other}, dreq.Sessions...)
+		}
+		h.st.batchBegin()
+	}
+	body, _ := json.Marshal(dreq)
 	req := httptest.NewRequest(http.MethodDelete, "/mqttproxy/c16/sessions", bytes.NewReader(body))
 	rec := httptest.NewRecorder()
-	h.logf("admin: DELETE session %s (key existed=%v)", c16ID, existed)
+	h.logf("admin: DELETE session %s (key existed=%v, sessions in the request: %d)", c16ID, existed, len(dreq.Sessions))
 	h.b.httpDeleteSessionHandler(rec, req)
+	if h.sc.BatchWatch {
+		h.st.batchEnd()
+	}
 	h.st.admin = false
 	if !existed || h.st.delErrs > errs {
 		r.Probe("c16.admin_delete_not_asserted")
@@ -3147,7 +3404,7 @@ func c16Exec(r *sim.Run, sci interface{}) {
 	if sc.GapDelete != "" {
 		h.st.midHook = h.gapDelete
 	}
-	if len(sc.Adm) > 0 {
+	if len(sc.Adm) > 0 || sc.BatchWatch {
 		// the stored session of an offline persistent client whose id extends the
 		// contested id (deleted by some of the admin requests)
 		off := &Session{info: &SessionInfo{EGName: "eg", Name: "c16", Topics: map[string]int{"a/#": 1, "c": 0}, ClientID: c16ID + "zz"}}
@@ -3414,6 +3671,8 @@ func TestVerifC16(t *testing.T) {
 			"refused connection attempts (bad auth/protocol/first packet) are not takeovers; an id whose session key is missing when the delete watch is re-established, and a bystander deleted by an admin request, are not judged",
 			"QoS1 probe round in mixed-QoS sessions requires delivery only through filters subscribed with QoS>=1 (inherited ones only if never asked for with QoS0); burst check only in all-QoS1 runs with an acknowledging survivor, link latency capped at 5 ms there",
 			"an admin delete placed between the two storage calls of the watch re-establishment must disconnect the client registered at that moment (the contested id is then not judged further); *-never-persisted classes only when every reconnect waited for the storage to catch up (21 idle polls), no storage error, no watch break, no broker-side deletion of the key",
+			"watch events with several keys (one per admin request) are within the storage interface's contract but are not produced by today's clusterStorage (cluster.watcher.WatchWithOp sends single-key maps); admin-deleted bystanders are asserted only if the watch was up and never broke in the run",
+			"a parked (overlap) reconnect is clean=0 and never the model's current connection; the driver waits for its registration in Broker.clients (white box) before the next CONNECT",
 			"maxAllowedConnection / rate limits are only set to values that never bind; binding caps, empty client id, two brokers on one store, admin delete of the contested id racing scripted connects are not generated",
 		},
 	})
